@@ -14,6 +14,11 @@
    xor <c2s|s2c> <offset> <hexbyte>  edit head record in the queue
    q                print queue lengths (records)
    st               print snapshot of both sides
+   DTLS (`new ... dtls=1`; cv/sv minor 3 = DTLS 1.2, 2 = DTLS 1.0): the wire queues hold DTLS records (13-byte headers); `step`
+   delivers ONE record as a datagram of its own, `stepdg <c2s|s2c> [n]` delivers whole datagrams as the sender emitted them,
+   `resend <c|s>` is the application's retransmission timeout (matrixDtlsGetOutdata with nothing pending rebuilds the last flight);
+   metadata of DTLS records carries ep=<epoch> sq=<sequence number> dg=<last record of its datagram> vr=<record version>, snapshots of DTLS
+   sessions carry the suffix dt=1,xe=<expected epoch>,pc=<parsedCCS>,ax=<appDataExch>,lr=<last rsn>,bm=<window bitmap>,fd=,ol=,we=
 */
 #include "sess.h"
 
@@ -43,6 +48,7 @@ static void do_new(char **a, int n) {
         else if (!strcmp(a[i], "keepkeys")) c.keep_skeys = atoi(v);
         else if (!strcmp(a[i], "psk")) c.psk = atoi(v);
         else if (!strcmp(a[i], "smaxed")) c.smaxed = atoi(v);
+        else if (!strcmp(a[i], "dtls")) c.dtls = atoi(v);
     }
     int rc = sess_new(&c);
     if (rc == 0) { g_quiet = 1; flush_out(&g_c); g_quiet = 0; }
@@ -51,7 +57,7 @@ static void do_new(char **a, int n) {
 
 static peer_t *side(const char *s) { return s[0] == 's' ? &g_s : &g_c; }
 static int dirof(const char *s) { return s[0] == 's' ? 1 : 0; }   /* "s2c" -> 1, "c2s" -> 0 */
-static int qcount(queue_t *q) { size_t off = 0; int n = 0; while (off + 5 <= q->len) { size_t l = 5 + ((size_t) q->b[off+3] << 8) + q->b[off+4]; if (off + l > q->len) break; off += l; n++; } return n; }
+static int qcount(queue_t *q) { size_t off = 0, h = (size_t) SESS_RHL; int n = 0; while (off + h <= q->len) { size_t l = h + ((size_t) q->b[off+h-2] << 8) + q->b[off+h-1]; if (off + l > q->len) break; off += l; n++; } return n; }
 
 static void run_cmd(char **a, int n) {
     if (n == 0) return;
@@ -66,6 +72,23 @@ static void run_cmd(char **a, int n) {
             deliver_one(d, 0); printf("post="); print_snap(d ? &g_c : &g_s); printf(" ");
         }
     }
+    else if (!strcmp(a[0], "stepdg") && n >= 2) {
+        int k = n >= 3 ? atoi(a[2]) : 1, d = dirof(a[1]);
+        for (int i = 0; i < k; i++) {
+            if (!q_reclen(d ? &g_s2c : &g_c2s)) { printf("stepdg:none"); break; }
+            printf("stepdg:%s pre=", d ? "c" : "s"); print_snap(d ? &g_c : &g_s); printf(" ");
+            deliver_dgram(d); printf("post="); print_snap(d ? &g_c : &g_s); printf(" ");
+        }
+    }
+#ifdef USE_DTLS
+    else if (!strcmp(a[0], "resend") && n >= 2) {
+        /* the application's retransmission timer fired: matrixDtlsGetOutdata with nothing pending rebuilds the last flight */
+        peer_t *p = side(a[1]);
+        printf("resend:%s pre=", a[1]); print_snap(p); printf(" ");
+        if (p->ssl && (p->ssl->flags & SSL_FLAGS_DTLS)) { g_dtls_resend = 1; size_t t = flush_out(p); printf("n=%zu ", t); } else printf("n=- ");
+        printf("post="); print_snap(p);
+    }
+#endif
     else if ((!strcmp(a[0], "inj") && n >= 3) || (!strcmp(a[0], "injc") && n >= 4)) {
         unsigned char *d; size_t l = unhex(a[2], &d); peer_t *p = side(a[1]);
         printf("inj:%s pre=", a[1]); print_snap(p); printf(" "); feed(p, d, l, n >= 4 ? (size_t) atoi(a[3]) : 0); printf("post="); print_snap(p); free(d);
@@ -82,6 +105,11 @@ static void run_cmd(char **a, int n) {
     else if (!strcmp(a[0], "save") && n >= 3) {
         queue_t *q = dirof(a[1]) ? &g_s2c : &g_c2s; int s = atoi(a[2]) % NSLOT; size_t l = q_reclen(q);
         free(g_slot[s]); g_slot[s] = malloc(l + 1); memcpy(g_slot[s], q->b, l); g_slotlen[s] = l; printf("save:%zu", l);
+        if (g_sdtls && l >= 13 && q->mh != q->mt) {     /* DTLS: the saved record's metadata (it may never be delivered in order) */
+            rmeta_t m = q->m[q->mh % MQ]; unsigned char *t = q->b;
+            printf("[o=%d i=%d s=%d l=%zu b=%02x%02x e=%d ep=%d sq=%lu dg=%d vr=%02x%02x]", t[0], m.inner, m.sealed, l - 13, l > 13 ? t[13] : 0, l > 14 ? t[14] : 0, m.early,
+                   (t[3] << 8) | t[4], ((unsigned long) t[7] << 24) | ((unsigned long) t[8] << 16) | ((unsigned long) t[9] << 8) | t[10], m.dgend, t[1], t[2]);
+        }
     }
     else if (!strcmp(a[0], "drop") && n >= 2) {
         queue_t *q = dirof(a[1]) ? &g_s2c : &g_c2s; int k = n >= 3 ? atoi(a[2]) : 1, i;
